@@ -64,3 +64,45 @@ func vpH_C28_sample_ring_add_step() {
 	vpAssert(r.l == len(want) && r.f >= 0 && r.f < len(r.fBuf) && r.i >= 0 && r.i < len(r.fBuf), "ring bookkeeping consistent")
 	vpReach("end")
 }
+
+// Shrinking the window evicts exactly the samples older than newest - delta; nthLast(n) is the n-th most recent sample.
+func vpH_C28_sample_ring_reduce_delta() {
+	delta := vpInt64()
+	vpAssume(vpAnd(delta >= 0, delta < 1<<62))
+	r := newSampleRing(delta, 4, chunkenc.ValFloat)
+	l := vpShape("fill", 1, 4)
+	f := vpShape("first", 0, 3)
+	r.f, r.l, r.i, r.bufInUse = f, l, (f+l-1)%4, fBuf
+	ts := make([]int64, l)
+	for k := 0; k < l; k++ {
+		ts[k] = vpInt64()
+		vpAssume(vpAnd(ts[k] > -(1<<62), ts[k] < 1<<62))
+		if k > 0 {
+			vpAssume(ts[k-1] < ts[k])
+		}
+		r.fBuf[(f+k)%4] = fSample{t: ts[k], f: float64(k)}
+	}
+	vpAssume(ts[0] >= ts[l-1]-delta)
+	d2 := vpInt64()
+	vpAssume(d2 >= 0)
+	ok := r.reduceDelta(d2)
+	vpObserve("ok", ok)
+	vpAssert(ok == (d2 <= delta), "the window can only shrink")
+	var want []int64
+	for _, t := range ts {
+		if !ok || t >= ts[l-1]-d2 {
+			want = append(want, t)
+		}
+	}
+	vpAssert(r.l == len(want), "exactly the samples older than newest - delta are evicted")
+	if r.l != len(want) {
+		return
+	}
+	for n := 1; n <= len(want); n++ {
+		s, found := r.nthLast(n)
+		vpAssert(found && s.T() == want[len(want)-n], "nthLast(n) is the n-th most recent sample")
+	}
+	_, found := r.nthLast(len(want) + 1)
+	vpAssert(!found, "nothing beyond the oldest sample")
+	vpReach("end")
+}
